@@ -289,6 +289,11 @@ class Run:
                    "db_user_add", "db_user_add", "db_user_add", "db_user_remove", "exec", "exec", "exec", "exec_mut", "exec_mut",
                    "exec_mut", "exec_mut", "optimize", "audit", "backup", "backup", "restore", "rollback", "clear", "convert", "copy", "copy",
                    "rename", "db_user_list", "db_list"]
+        elif prof == "roles":
+            # C24, second profile: few operation kinds, many role holders - the same database name under several owners,
+            # roles granted, changed and removed, and every role-gated operation tried by every kind of holder
+            ops = (["db_add"] * 3 + ["db_user_add"] * 5 + ["db_user_remove"] * 2 + ["exec_mut"] * 5 + ["exec"] * 2 + ["optimize"] * 2
+                   + ["clear"] * 2 + ["backup", "restore", "convert", "copy", "rename", "audit", "db_user_list", "db_delete", "login", "logout"])
         elif prof == "batch":
             ops = ["exec_mut"] * 8 + ["exec"] * 2 + ["db_add", "db_user_add", "login", "backup", "restore", "rollback", "clear"]
         else:  # names
@@ -307,7 +312,8 @@ class Run:
             d = r.choice(last)
             owner, db = d["owner"], d["db"]
             x = r.random()
-            who = owner if x < 0.5 else (r.choice(d["roles"])[0] if d["roles"] and x < 0.8 else None)
+            own = 0.25 if prof == "roles" else 0.5
+            who = owner if x < own else (r.choice(d["roles"])[0] if d["roles"] and x < 0.8 else None)
             if who and not self.toks.get(who) and r.random() < 0.7:
                 self.login(who)
             if who and self.toks.get(who):
@@ -439,7 +445,7 @@ def record(binary, work, profile, runs, steps, seed):
     events = []
     summ = {"runs": 0, "requests": 0, "requests_ok": 0, "ops": {}}
     for i in range(runs):
-        rng = random.Random(seed * 100003 + i * 7919 + {"auth": 1, "batch": 2, "names": 3}[profile])
+        rng = random.Random(seed * 100003 + i * 7919 + {"auth": 1, "batch": 2, "names": 3, "roles": 4}[profile])
         srv = Server(binary, os.path.join(work, "srv%d" % i, "cwd"))
         srv.start()
         try:
